@@ -270,10 +270,29 @@ func runC18(c *core.Ctx) {
 		old := runtime.GOMAXPROCS(P)
 		defer runtime.GOMAXPROCS(old)
 		values := c18Values(r)
+		// an identical second set, built from the same stream and never touched sequentially:
+		// the concurrent round runs on these, so that first-use effects (lazy initialisation,
+		// memoised serialisations) happen under concurrency, while the baseline comes from the
+		// first set
+		twins := c18Values(core.NewRand(c.Seed, c.Prop, "rounds", i))
+		if len(twins) != len(values) {
+			twins = values
+		}
 		codes := []int{0, 1, 7, 11, 4, 3, 12 + r.Pick(60000), 9, 65535, 8 + r.Pick(60000)}
 		tablesBefore := packageTables()
-		for _, sv := range values {
+		for vi, sv := range values {
 			sv := sv
+			tw := twins[vi]
+			if tw.name != sv.name {
+				tw = sv
+			}
+			// fresh unknown key types whose first size lookups happen inside the concurrent round
+			var freshKCs []*key_certificate.KeyCertificate
+			for k := 0; k < 3; k++ {
+				if kc, _, err := key_certificate.NewKeyCertificate(rm.KeyCert(21+r.Pick(65000), 9+r.Pick(65000), nil).Encode()); err == nil {
+					freshKCs = append(freshKCs, kc)
+				}
+			}
 			c.Eval(1)
 			// sequential baseline
 			var base []lib.Obs
@@ -288,7 +307,7 @@ func runC18(c *core.Ctx) {
 			}
 			baseDigest := lib.Digest(base)
 			baseLook := lookups(codes)
-			snapBefore := lib.RenderCaps(sv.val)
+			snapBefore := lib.RenderCaps(tw.val)
 			// concurrent round
 			var wg sync.WaitGroup
 			var inFlight, ticket atomic.Int64
@@ -329,12 +348,21 @@ func runC18(c *core.Ctx) {
 						case 1:
 							time.Sleep(time.Duration(gr.Pick(50)) * time.Microsecond)
 						}
-						obs := lib.Observe(sv.val, lib.ObserveOpts{Depth: 1})
+						obs := lib.Observe(tw.val, lib.ObserveOpts{Depth: 1})
 						res.calls += int64(len(obs))
 						if d := lib.Diff(base, obs); len(d) > 0 && res.diff == nil {
 							res.diff = d
 						}
-						for k, op := range sv.ops {
+						for _, kc := range freshKCs {
+							if kc.SigningPublicKeySize() != 0 || kc.SignatureSize() != 0 || kc.CryptoSize() != 0 {
+								res.look = true
+							}
+							if _, err := kc.CryptoPublicKeySize(); err == nil {
+								res.look = true
+							}
+							res.calls += 4
+						}
+						for k, op := range tw.ops {
 							if got := op(); got != baseOps[k] && res.opDiff == "" {
 								res.opDiff = fmt.Sprintf("op %d: %q vs %q", k, got, baseOps[k])
 							}
@@ -393,10 +421,10 @@ func runC18(c *core.Ctx) {
 			totalRounds++
 			perOp[sv.name] += int64(len(base) + len(sv.ops))
 			// read-only operations mutate neither the receiver ...
-			if after := lib.RenderCaps(sv.val); after != snapBefore {
+			if after := lib.RenderCaps(tw.val); after != snapBefore {
 				c.Violate(sv.name, "receiver-mutated-by-read-only-operations", sh, nil, firstDiffStr(snapBefore, after))
 			}
-			if d2 := lib.Digest(lib.Observe(sv.val, lib.ObserveOpts{Depth: 1})); d2 != baseDigest {
+			if d2 := lib.Digest(lib.Observe(tw.val, lib.ObserveOpts{Depth: 1})); d2 != baseDigest {
 				c.Violate(sv.name, "results-changed-after-concurrent-use", sh, nil, "")
 			}
 			c.Nontrivial([]byte("c18"), []byte(sv.name), []byte(fmt.Sprint(i)))
